@@ -109,7 +109,8 @@ NoSol   == [s |-> "no"]
 
 NewP(kind, other, val) ==
     [kind |-> kind, deleted |-> FALSE, rc |-> 1, other |-> other,
-     val |-> val, sol |-> NoSol]
+     val |-> val, sol |-> NoSol,
+     sg |-> <<>>]      \* correlated: sigma frequency grid given (else <<>>)
 
 ScalarVal(v)      == [v |-> v]
 VectorVal(fv, gv) == [f |-> fv, g |-> gv]
@@ -160,6 +161,39 @@ ChainEnd(P, h) ==
     IF P[h].kind \in {"unknown", "correlated"} THEN ChainEnd(P, P[h].other)
     ELSE h
 
+(* Frequency range of a parameter against the calibration band [a, b]      *)
+(* (only once the frequency vector has been given).  Vector data -- the    *)
+(* parameter's own or, for unknown / correlated parameters, that of the    *)
+(* vector parameter at the end of their chain -- must cover the band: the  *)
+(* pool frequencies are >= 25 % apart, so "not covering" is the property's *)
+(* "missing the band by >= 5 %" (refused).  For the sigma grid of a        *)
+(* correlated parameter the manual only asks that it "overlap": covering   *)
+(* => fine, disjoint => refused, partial overlap => open.                  *)
+VGrid(P, h) == LET e == ChainEnd(P, h)
+               IN IF P[e].kind = "vector" THEN P[e].val.f ELSE <<>>
+Covers(g, a, b)   == g = <<>> \/ (g[1] <= a /\ b <= g[Len(g)])
+Disjoint(g, a, b) == g # <<>> /\ (g[Len(g)] < a \/ g[1] > b)
+
+OwnRange(P, h, a, b) ==
+    IF ~Covers(VGrid(P, h), a, b) THEN "bad"
+    ELSE IF Covers(P[h].sg, a, b) THEN "ok"
+    ELSE IF Disjoint(P[h].sg, a, b) THEN "bad" ELSE "open"
+
+(* a correlated parameter is checked together with its correlate(s), down  *)
+(* to the first one the vnacal_new_t already holds                         *)
+RECURSIVE RangeBad(_, _, _, _, _)
+RangeBad(P, nw, h, a, b) ==
+    IF h \in nw.held THEN FALSE
+    ELSE \/ OwnRange(P, h, a, b) = "bad"
+         \/ (P[h].kind = "correlated" /\ RangeBad(P, nw, P[h].other, a, b))
+
+RECURSIVE RangeFine(_, _, _, _, _)
+RangeFine(P, nw, h, a, b) ==
+    \/ h \in nw.held
+    \/ /\ OwnRange(P, h, a, b) = "ok"
+       /\ P[h].kind \in {"unknown", "correlated"} =>
+              RangeFine(P, nw, P[h].other, a, b)
+
 -----------------------------------------------------------------------------
 (* vnacal_make_*_parameter, vnacal_delete_parameter                        *)
 
@@ -182,12 +216,15 @@ DoMakeVector(st, op) ==
                           NewP("vector", NoH, VectorVal(op.fv, op.gv))), op.h)
     ELSE Illegal(st, "handle not fresh")
 
-MakeDependent(st, op, kind) ==
+MakeDependentG(st, op, kind, sg) ==
     IF Fresh(st.params, op.h)
     THEN Ok([st EXCEPT !.params =
-                FPut(Hold(@, op.other), op.h, NewP(kind, op.other, NoVal))],
+                FPut(Hold(@, op.other), op.h,
+                     [NewP(kind, op.other, NoVal) EXCEPT !.sg = sg])],
             op.h)
     ELSE Illegal(st, "handle not fresh")
+
+MakeDependent(st, op, kind) == MakeDependentG(st, op, kind, <<>>)
 
 (* make_unknown: initial_guess must be a valid handle; the manual names    *)
 (* predefined, scalar and vector parameters as guesses -- an unknown or    *)
@@ -215,7 +252,7 @@ DoMakeCorrelated(st, op) ==
                  ELSE Fail(st, {"EINVAL"})
        ELSE IF ~ValidGrid(op.sfv) THEN Fail(st, {"EINVAL"})
        ELSE IF ~op.ok THEN MustOk(st)
-       ELSE MakeDependent(st, op, "correlated")
+       ELSE MakeDependentG(st, op, "correlated", op.sfv)
 
 (* delete_parameter: removes a live user handle (the parameter lives on    *)
 (* while referenced); the predefined handles are permanent -- whether      *)
@@ -302,19 +339,27 @@ DoNewAlloc(st, op) ==
 HasNew(st, n) == n \in DOMAIN st.news
 
 (* set_frequency_vector: non-negative ascending values, length = the       *)
-(* frequencies given to new_alloc.  (The driver only holds vector          *)
-(* parameters that cover the whole band, so the frequency-range rule       *)
-(* against held parameters never decides; it belongs to Interp / C10.)     *)
+(* frequencies given to new_alloc; parameters the vnacal_new_t already     *)
+(* uses must fit the band (OwnRange below).                                *)
 DoSetFrequencyVector(st, op) ==
     LET nw == st.news[op.n]
+        P  == st.params
+        a  == op.fv[1]
+        b  == op.fv[Len(op.fv)]
+        H  == nw.held \ Predef
+        set == Ok([st EXCEPT !.news[op.n].fv = op.fv,
+                             !.news[op.n].fvalid = TRUE], 0)
     IN IF nw.nf >= 1 /\ ~(Len(op.fv) = nw.nf /\ ValidGrid(op.fv))
        THEN Fail(st, {"EINVAL"})
        ELSE IF nw.nf = 0            \* empty vector: not described
             THEN IF op.ok
                  THEN Ok([st EXCEPT !.news[op.n].fvalid = TRUE], 0)
                  ELSE Fail(st, {"EINVAL"})
-       ELSE Ok([st EXCEPT !.news[op.n].fv = op.fv,
-                          !.news[op.n].fvalid = TRUE], 0)
+       (* the parameters already in use must fit the new band *)
+       ELSE IF \E h \in H : OwnRange(P, h, a, b) = "bad"
+            THEN Fail(st, {"EINVAL"})
+       ELSE IF \A h \in H : OwnRange(P, h, a, b) = "ok" THEN set
+       ELSE IF op.ok THEN set ELSE Fail(st, {"EINVAL"})
 
 DoSetZ0(st, op) == Ok([st EXCEPT !.news[op.n].z0 = op.z], 0)
 
@@ -372,11 +417,18 @@ DoAddStd(st, op) ==
                              !.news[op.n].held = a.held,
                              !.news[op.n].used = @ \cup hs,
                              !.news[op.n].stds = Append(@, std)], 0)
+        a == IF nw.fvalid /\ nw.fv # <<>> THEN nw.fv[1] ELSE 0
+        b == IF nw.fvalid /\ nw.fv # <<>> THEN nw.fv[Len(nw.fv)] ELSE 0
+        ranged == nw.fvalid /\ nw.fv # <<>>
     IN IF ~ValidPorts(nw, std) \/ (\E h \in hs : ~Known(P, nw, h))
        THEN Fail(st, {"EINVAL"})          \* a rejected standard adds nothing
-       ELSE IF \A h \in hs : Usable(P, nw, h) /\ ChainOK(P, nw, h)
+       ELSE IF ranged /\ (\E h \in hs : RangeBad(P, nw, h, a, b))
+            THEN Fail(st, {"EINVAL"})     \* ... whichever cell is at fault
+       ELSE IF /\ \A h \in hs : Usable(P, nw, h) /\ ChainOK(P, nw, h)
+               /\ ranged => \A h \in hs : RangeFine(P, nw, h, a, b)
             THEN IF ~op.ok THEN MustOk(st) ELSE accept
-       ELSE (* only indirectly held, or a correlate was deleted: open *)
+       ELSE (* only indirectly held, a correlate was deleted, or a sigma   *)
+            (* grid overlaps the band only partly: open                    *)
             IF op.ok THEN accept ELSE Fail(st, {"EINVAL"})
 
 (* --- solve ---                                                           *)
@@ -396,7 +448,10 @@ ReflVals(P, nw, p) ==
 
 HasThru(nw) == \E s \in Range(nw.stds) : s.shape = "thru"
 
+(* std.ex = 1: the driver could compute the ideal-instrument measurement  *)
+(* of the standard exactly (0: a vector parameter between its knots)       *)
 Determined(P, nw) ==
+    /\ \A s \in Range(nw.stds) : s.ex = 1
     /\ nw.type \in {"T8", "E12"}
     /\ nw.rows = nw.cols /\ nw.rows <= 2
     /\ \A p \in 1..nw.rows : Cardinality(ReflVals(P, nw, p)) >= 3
